@@ -45,12 +45,12 @@ func c12Types(thorough bool) []c12Type {
 	}
 	n := name2
 	base := []ast.BaseTerm{ast.AnyBound, ast.NumberBound, ast.StringBound, ast.NameBound, ast.Float64Bound, ast.BytesBound, ast.TimeBound, ast.DurationBound,
-		n("/a"), n("/a/b"), n("/ab"), n("/b"),
+		n("/a"), n("/a/b"), n("/ab"), n("/b"), n("/ab/z"), n("/a/bc"), n("/a/b/y"),
 		symbols.NewSingletonType(n("/a/x")), symbols.NewSingletonType(ast.Number(1)), symbols.NewSingletonType(ast.String("s")), symbols.NewSingletonType(n("/ab/z"))}
 	for _, b := range base {
 		add(b)
 	}
-	A := []ast.BaseTerm{ast.AnyBound, ast.NumberBound, ast.StringBound, ast.NameBound, n("/a"), n("/a/b"), n("/ab"), symbols.NewSingletonType(n("/a/x"))}
+	A := []ast.BaseTerm{ast.AnyBound, ast.NumberBound, ast.StringBound, ast.NameBound, n("/a"), n("/a/b"), n("/ab"), symbols.NewSingletonType(n("/a/x")), n("/ab/z")}
 	f, g := n("/f"), n("/g")
 	for _, x := range A {
 		add(symbols.NewListType(x))
@@ -95,7 +95,7 @@ func c12Types(thorough bool) []c12Type {
 
 func c12Consts() []ast.Constant {
 	n := name2
-	leaves := []ast.Constant{n("/a"), n("/a/x"), n("/a/b"), n("/a/b/y"), n("/ab"), n("/ab/z"), n("/b/x"), n("/k1"), n("/k2"),
+	leaves := []ast.Constant{n("/a"), n("/a/x"), n("/a/b"), n("/a/b/y"), n("/ab"), n("/ab/z"), n("/b/x"), n("/k1"), n("/k2"), n("/ab/z/w"), n("/a/bc/d"), n("/a/b/y/v"),
 		ast.Number(1), ast.Number(2), ast.String("s"), ast.String("t"), ast.Float64(1.5), ast.Bytes([]byte("b")), ast.Time(5), ast.Duration(7)}
 	out := append([]ast.Constant{}, leaves...)
 	f, g, kind := n("/f"), n("/g"), n("/kind")
@@ -119,7 +119,7 @@ func c12Consts() []ast.Constant {
 		}
 		return o
 	}
-	l1 := mk(leaves[:14])
+	l1 := mk(leaves[:17])
 	out = append(out, l1...)
 	// tagged-union shaped structs
 	k1, k2 := n("/k1"), n("/k2")
